@@ -355,3 +355,248 @@ Section FoldExp.
       + cbn [gexp]. rewrite Gf. simpl. clear - K. induction K; simpl; auto. destruct H as [_ ->]. auto.
   Qed.
 End FoldExp.
+
+(* ------------------------------------------------------------------ *)
+(* execution: basic facts                                              *)
+(* ------------------------------------------------------------------ *)
+Lemma is_call_some f e args : is_call f e = Some args -> e = ECall f args.
+Proof.
+  destruct e; simpl; try discriminate. destruct (String.eqb f0 f) eqn:E; try discriminate.
+  apply String.eqb_eq in E. intro H; inversion H; subst; auto.
+Qed.
+
+Lemma is_call_call f g args : is_call f (ECall g args) = if String.eqb g f then Some args else None.
+Proof. reflexivity. Qed.
+
+Section Sem.
+  Variable ext : string -> list val -> option val.
+  Notation eval := (eval ext).
+  Notation exec := (exec ext).
+  Notation exec_list := (exec_list ext).
+  Notation iter_vals := (iter_vals ext).
+
+  Lemma exec_list_nil rho : exec_list [] rho = Some (rho, None).
+  Proof. reflexivity. Qed.
+
+  Lemma exec_list_cons s r rho :
+    exec_list (s :: r) rho = match exec s rho with Some (rho', None) => exec_list r rho' | o => o end.
+  Proof. reflexivity. Qed.
+
+  Lemma exec_list_single s rho : exec_list [s] rho = exec s rho.
+  Proof. rewrite exec_list_cons. destruct (exec s rho) as [[r [v|]]|]; auto. Qed.
+
+  Lemma exec_list_app l1 l2 rho :
+    exec_list (l1 ++ l2) rho =
+    match exec_list l1 rho with Some (rho', None) => exec_list l2 rho' | o => o end.
+  Proof.
+    revert rho; induction l1 as [|s r IH]; intro rho; simpl app.
+    - reflexivity.
+    - rewrite !exec_list_cons. destruct (exec s rho) as [[r1 [v|]]|]; auto.
+  Qed.
+
+  Lemma exec_if c b o rho :
+    exec (SIf c b o) rho =
+    match eval rho c with
+    | Some v => if truthy v then exec_list b rho else exec_list o rho
+    | None => None
+    end.
+  Proof. reflexivity. Qed.
+
+  Lemma exec_for x it b rho :
+    exec (SFor x it b) rho =
+    match iter_vals rho it with
+    | Some vs => loop_with (exec_list b) x vs rho
+    | None => None
+    end.
+  Proof. reflexivity. Qed.
+
+  Lemma loop_with_ext (f g : env -> outcome) x vs rho :
+    (forall r, f r = g r) -> loop_with f x vs rho = loop_with g x vs rho.
+  Proof.
+    intro E. revert rho; induction vs as [|v r IH]; intro rho; simpl; auto.
+    rewrite E. destruct (g (upd rho x v)) as [[r1 [w|]]|]; auto.
+  Qed.
+
+  Lemma iter_vals_range rho args :
+    iter_vals rho (ECall "range" args) =
+    match all_some (map (eval rho) args) with
+    | Some vs => match all_some (map as_int vs) with
+                 | Some zs => option_map (map VInt) (range_of zs)
+                 | None => None
+                 end
+    | None => None
+    end.
+  Proof. reflexivity. Qed.
+
+  Lemma iter_vals_other rho it :
+    is_call "range" it = None ->
+    iter_vals rho it = match eval rho it with Some (VTup l) => Some l | _ => None end.
+  Proof. unfold M_A2A.iter_vals. intros ->. reflexivity. Qed.
+End Sem.
+
+(* ------------------------------------------------------------------ *)
+(* guards: basic facts                                                 *)
+(* ------------------------------------------------------------------ *)
+Lemma gexp_not_call okn lv e f :
+  gexp okn lv e = true -> existsb (String.eqb f) special_calls = true -> is_call f e = None.
+Proof.
+  destruct e; simpl; auto. intros G S. apply andb_true_iff in G; destruct G as [G _].
+  destruct (String.eqb f0 f) eqn:E; auto. apply String.eqb_eq in E. subst.
+  apply negb_true_iff in G. unfold special_calls in *. congruence.
+Qed.
+
+Lemma const_iter_gexp okn lv it : const_iter it = true -> gexp okn lv it = true.
+Proof.
+  assert (K : forall l, forallb valued_const l = true -> forallb (gexp okn lv) l = true).
+  { induction l; simpl; auto. intro H. apply andb_true_iff in H; destruct H as [H1 H2].
+    rewrite IHl by auto. destruct a; simpl in *; try discriminate. now rewrite H1. }
+  destruct it; simpl; try discriminate; auto.
+Qed.
+
+Lemma const_iter_not_range it : const_iter it = true -> is_call "range" it = None.
+Proof. destruct it; simpl; try discriminate; auto. Qed.
+
+Lemma fold_const_list l : forallb valued_const l = true -> mapM fold_exp l = Ok l.
+Proof.
+  induction l; simpl; auto. intro H. apply andb_true_iff in H; destruct H as [H1 H2].
+  rewrite (IHl H2). destruct a; simpl in *; try discriminate. reflexivity.
+Qed.
+
+Lemma fold_names okn l : forallb (gname okn) l = true -> mapM fold_exp l = Ok l.
+Proof.
+  induction l; simpl; auto. intro H. apply andb_true_iff in H; destruct H as [H1 H2].
+  rewrite (IHl H2). destruct a; simpl in *; try discriminate. reflexivity.
+Qed.
+
+(* ------------------------------------------------------------------ *)
+(* ConstantFolder on statements                                        *)
+(* ------------------------------------------------------------------ *)
+Section FoldStmt.
+  Variable ext : string -> list val -> option val.
+  Variable okn : string -> bool.
+  Notation eval := (eval ext).
+  Notation exec := (exec ext).
+  Notation exec_list := (exec_list ext).
+  Notation iter_vals := (iter_vals ext).
+
+  Definition fold_stmt_spec (s : stmt) : Prop :=
+    forall lv l, gstmt okn lv s = true -> fold_stmt s = Ok l ->
+                 (forall rho, exec_list l rho = exec s rho) /\ forallb (gstmt okn lv) l = true.
+
+  Lemma fold_flat_sound b : Forall fold_stmt_spec b ->
+    forall lv b', forallb (gstmt okn lv) b = true -> flat_mapM fold_stmt b = Ok b' ->
+    (forall rho, exec_list b' rho = exec_list b rho) /\ forallb (gstmt okn lv) b' = true.
+  Proof.
+    induction 1 as [|s r Hs Hr IH]; intros lv b' G H; simpl in H.
+    - inversion H; subst. auto.
+    - simpl in G. apply andb_true_iff in G; destruct G as [Gs Gr].
+      inv_bind H. inv_bind H. inversion H; subst.
+      destruct (Hs _ _ Gs Ha) as (E1 & G1). destruct (IH _ _ Gr Ha0) as (E2 & G2).
+      split.
+      + intro rho. rewrite exec_list_app, exec_list_cons, E1.
+        destruct (exec s rho) as [[r1 [v|]]|]; auto.
+      + rewrite forallb_app, G1, G2. reflexivity.
+  Qed.
+
+  Lemma fold_args_sound lv args args' :
+    forallb (gexp okn lv) args = true -> mapM fold_exp args = Ok args' ->
+    (forall rho, all_some (map (eval rho) args') = all_some (map (eval rho) args)) /\
+    forallb (gexp okn lv) args' = true.
+  Proof.
+    revert args'; induction args as [|a r IH]; intros args' G H; simpl in H.
+    - inversion H; subst; auto.
+    - simpl in G. apply andb_true_iff in G; destruct G as [Ga Gr].
+      inv_bind H. inv_bind H. inversion H; subst.
+      destruct (fold_exp_sound ext okn lv _ _ Ga Ha) as (E1 & G1). destruct (IH _ Gr Ha0) as (E2 & G2).
+      split.
+      + intro rho. simpl. now rewrite E1, E2.
+      + simpl. now rewrite G1, G2.
+  Qed.
+
+  Lemma fold_stmt_sound s : fold_stmt_spec s.
+  Proof.
+    induction s as [t e|x op e|c b o Hb Ho|x it b Hb|e|e] using stmt_ind2; intros lv l G H;
+      cbn [gstmt fold_stmt] in G, H.
+    - (* Assign *)
+      inv_bind H. inv_bind H. inversion H; subst.
+      destruct t as [x|tl].
+      + apply andb_true_iff in G; destruct G as [Gx Ge].
+        destruct (fold_exp_sound ext okn lv _ _ Ge Ha0) as (E & G').
+        simpl in Ha. inversion Ha; subst. split.
+        * intro rho. rewrite exec_list_single. simpl. now rewrite E.
+        * simpl. now rewrite Gx, G'.
+      + apply andb_true_iff in G; destruct G as [G Gl]. apply andb_true_iff in G; destruct G as [Gn Ge].
+        destruct (fold_exp_sound ext okn lv _ _ Ge Ha0) as (E & G').
+        simpl in Ha. rewrite (fold_names _ _ Gn) in Ha. simpl in Ha. inversion Ha; subst. split.
+        * intro rho. rewrite exec_list_single. simpl. now rewrite E.
+        * simpl. rewrite Gn, G'. simpl.
+          destruct e; simpl in Gl; try discriminate; simpl in Ha0; inv_bind Ha0; inversion Ha0; subst; simpl.
+          all: apply mapM_ok, Forall2_length in Ha1; rewrite <- Ha1, Gl; reflexivity.
+    - (* AugAssign *)
+      apply andb_true_iff in G; destruct G as [G Ge]. apply andb_true_iff in G; destruct G as [Gx Gop].
+      inv_bind H. inversion H; subst.
+      destruct (fold_exp_sound ext okn lv _ _ Ge Ha) as (E & G'). split.
+      + intro rho. rewrite exec_list_single. simpl. now rewrite E.
+      + simpl. now rewrite Gx, Gop, G'.
+    - (* If *)
+      apply andb_true_iff in G; destruct G as [G Go]. apply andb_true_iff in G; destruct G as [Gc Gb].
+      inv_bind H. inv_bind H. inv_bind H.
+      destruct (fold_exp_sound ext okn lv _ _ Gc Ha) as (Ec & Gc').
+      destruct (fold_flat_sound _ Hb _ _ Gb Ha0) as (Eb & Gb').
+      destruct (fold_flat_sound _ Ho _ _ Go Ha1) as (Eo & Go').
+      destruct (is_constant a) eqn:Ca.
+      + inv_bind H. inversion H; subst.
+        destruct a; simpl in Ca, Gc', Ha2; try discriminate.
+        destruct c0; simpl in Ha2, Gc'; try discriminate; inversion Ha2; subst.
+        * split. { intro rho. rewrite exec_if, <- Ec. simpl. destruct a2; auto. }
+          destruct a2; auto.
+        * split. { intro rho. rewrite exec_if, <- Ec. simpl. destruct (negb (z =? 0)%Z); auto. }
+          destruct (negb (z =? 0)%Z); auto.
+      + inversion H; subst. split.
+        * intro rho. rewrite exec_list_single, !exec_if, Ec, Eb, Eo. reflexivity.
+        * simpl. now rewrite Gc', Gb', Go'.
+    - (* For *)
+      apply andb_true_iff in G; destruct G as [G Gb]. apply andb_true_iff in G; destruct G as [Gx Gi].
+      inv_bind H. inv_bind H. inversion H; subst.
+      destruct (fold_flat_sound _ Hb _ _ Gb Ha0) as (Eb & Gb').
+      assert (K : (forall rho, iter_vals rho a = iter_vals rho it) /\
+                  (match is_call "range" a with
+                   | Some args => forallb (gexp okn lv) args
+                   | None => const_iter a end) = true).
+      { destruct (is_call "range" it) as [args|] eqn:Ci.
+        - apply is_call_some in Ci. subst it. cbn [fold_exp] in Ha. inv_bind Ha.
+          change (existsb (String.eqb "range") builtin_funcs) with false in Ha. inversion Ha; subst.
+          destruct (fold_args_sound _ _ _ Gi Ha2) as (Ea & Ga). split.
+          + intro rho. rewrite !iter_vals_range, Ea. reflexivity.
+          + rewrite is_call_call. simpl. exact Ga.
+        - assert (a = it).
+          { destruct it; simpl in Gi; try discriminate; simpl in Ha;
+              rewrite (fold_const_list _ Gi) in Ha; simpl in Ha; inversion Ha; auto. }
+          subst a. rewrite Ci. auto. }
+      destruct K as (Ei & Gi'). split.
+      + intro rho. rewrite exec_list_single, !exec_for, Ei.
+        destruct (iter_vals rho it); auto. apply loop_with_ext. exact Eb.
+      + simpl. now rewrite Gx, Gi', Gb'.
+    - (* Return *)
+      inv_bind H. inversion H; subst.
+      destruct (fold_exp_sound ext okn lv _ _ G Ha) as (E & G'). split.
+      + intro rho. rewrite exec_list_single. simpl. now rewrite E.
+      + simpl. now rewrite G'.
+    - (* Expr *)
+      destruct e as [e|].
+      + inv_bind H. inversion H; subst.
+        destruct (fold_exp_sound ext okn lv _ _ G Ha) as (E & G'). split.
+        * intro rho. rewrite exec_list_single. simpl.
+          rewrite (gexp_not_call _ _ _ "print" G), (gexp_not_call _ _ _ "print" G') by reflexivity.
+          now rewrite E.
+        * simpl. now rewrite G'.
+      + inversion H; subst. split; auto.
+  Qed.
+
+  Lemma fold_list_sound lv b b' :
+    forallb (gstmt okn lv) b = true -> fold_list b = Ok b' ->
+    (forall rho, exec_list b' rho = exec_list b rho) /\ forallb (gstmt okn lv) b' = true.
+  Proof.
+    apply fold_flat_sound. apply Forall_forall. intros s _. apply fold_stmt_sound.
+  Qed.
+End FoldStmt.
